@@ -121,6 +121,10 @@ EVarQ(u, w) == IF NSsy(w) = 0 THEN QUndef
 \*   1 - (sum d^2 - mean(d)) / sum (w - mean w)^2
 EVarDevQ(u, w) == IF NSsy(w) = 0 THEN QUndef
                   ELSE QSub(QI(1), Q(Len(u) * SumSq(Diff(u, w)) - SumSeq(Diff(u, w)), NSsy(w)))
+\* the same when the values are u/uu, w/uu (uu a power-of-two unit): the subtracted mean error scales with 1/uu,
+\* the squares with 1/uu^2
+EVarDevUQ(u, w, uu) == IF NSsy(w) = 0 THEN QUndef
+                       ELSE QSub(QI(1), Q(Len(u) * SumSq(Diff(u, w)) - uu * SumSeq(Diff(u, w)), NSsy(w)))
 \* mean squared log error, values >= 0 : fixed point at ES through LnInt(1 + v)
 MsleDef(u, w) == \A q \in 1..Len(u) : u[q] >= 0 /\ w[q] >= 0 /\ u[q] < 1024 /\ w[q] < 1024
 MsleLd(u, w) == [q \in 1..Len(u) |-> Abs(LnInt(1 + u[q]) - LnInt(1 + w[q]))]
@@ -262,6 +266,7 @@ InvRoc == (Run /\ mkind = "roc") =>
   /\ Abs(23 * LnInt(1024) - 10 * LnEps23) <= 23          \* the clipping constant against the checked table
 
 Shift(uv, dd) == [q \in 1..Len(uv) |-> uv[q] + dd]
+Scale(xv, ff, dd) == [q \in 1..Len(xv) |-> ff * xv[q] + dd]
 InvReg == (Run /\ mkind = "reg") =>
   LET uv == mcols[1]  wv == mcols[2] IN
   /\ QDef(R2Q(uv, wv)) = (\E q \in 1..Len(wv) : wv[q] # wv[1])          \* defined iff the truth is not constant
@@ -271,6 +276,15 @@ InvReg == (Run /\ mkind = "reg") =>
        /\ QEq(EVarQ(Shift(uv, 3), wv), EVarQ(uv, wv))                     \* offsets do not matter
        /\ QEq(EVarQ(Shift(uv, 1), Shift(wv, 1)), EVarQ(uv, wv)) /\ QEq(R2Q(Shift(uv, 1), Shift(wv, 1)), R2Q(uv, wv))
        /\ (SumSeq(Diff(uv, wv)) = 0) => QEq(EVarQ(uv, wv), R2Q(uv, wv))
+  \* shift invariance / scale equivariance (the offset families of the trace spec evaluate the definitions on
+  \* the un-shifted integers of a case and divide by its power-of-two unit)
+  /\ QEq(MaxErrQ(Shift(uv, 7), Shift(wv, 7)), MaxErrQ(uv, wv)) /\ QEq(MaeQ(Shift(uv, 7), Shift(wv, 7)), MaeQ(uv, wv))
+  /\ QEq(MseQ(Shift(uv, 7), Shift(wv, 7)), MseQ(uv, wv)) /\ QEq(MedAeQ(Shift(uv, 7), Shift(wv, 7)), MedAeQ(uv, wv))
+  /\ QEq(MaxErrQ(Scale(uv, 8, 0), Scale(wv, 8, 0)), QMul(QI(8), MaxErrQ(uv, wv)))
+  /\ QEq(MaeQ(Scale(uv, 8, 0), Scale(wv, 8, 0)), QMul(QI(8), MaeQ(uv, wv)))
+  /\ QEq(MedAeQ(Scale(uv, 8, 0), Scale(wv, 8, 0)), QMul(QI(8), MedAeQ(uv, wv)))
+  /\ QEq(MseQ(Scale(uv, 8, 0), Scale(wv, 8, 0)), QMul(QI(64), MseQ(uv, wv)))
+  /\ QEq(R2Q(Scale(uv, 8, 5), Scale(wv, 8, 5)), R2Q(uv, wv)) /\ QEq(EVarQ(Scale(uv, 8, 5), Scale(wv, 8, 5)), EVarQ(uv, wv))
   /\ QLe(MedAeQ(uv, wv), MaxErrQ(uv, wv)) /\ QLe(MaeQ(uv, wv), MaxErrQ(uv, wv))
   /\ QLe(QMul(MaeQ(uv, wv), MaeQ(uv, wv)), MseQ(uv, wv))                  \* Jensen
   /\ QLe(MseQ(uv, wv), QMul(MaxErrQ(uv, wv), MaxErrQ(uv, wv)))
@@ -278,7 +292,6 @@ InvReg == (Run /\ mkind = "reg") =>
   /\ (uv = wv) => (QSgn(MaxErrQ(uv, wv)) = 0 /\ QSgn(MseQ(uv, wv)) = 0 /\ (QDef(MapeQ(uv, wv)) => QSgn(MapeQ(uv, wv)) = 0))
   /\ MsleDef(uv, wv) => (MsleSum(uv, wv) >= 0 /\ MsleSum(uv, wv) = MsleSum(wv, uv) /\ ((uv = wv) => MsleSum(uv, wv) = 0))
 
-Scale(xv, ff, dd) == [q \in 1..Len(xv) |-> ff * xv[q] + dd]
 InvSil == (Run /\ mkind = "sil") =>
   LET xv == mcols[1]  lv == mcols[2]  sq == SilQ(xv, lv) IN
   /\ QInPm1(sq)
